@@ -16,7 +16,7 @@ TRUSTED = ['numpy.linalg.eigh as an oracle (recorded; eigen-equation, orthonorma
            'interface.get_contact_atoms (C05) supplies the contact atoms of align_interface']
 RULE = ('elongated / flattened synthetic structures (extreme eigenvalue gap ratio >= 1.05) in ~200 orientations incl. the '
         'poles and the coordinate planes x {x,y,z} / {xy,xz,yz} x selections x export on/off; plus _align_along_axis on '
-        'exact rational spherical angles. Non-trivial: every case (each has a distinct orientation / axis / selection).')
+        'exact rational spherical angles; scalar selection values; export off also said as 0 / np.False_ / None / empty string. Non-trivial: every case (each has a distinct orientation / axis / selection).')
 TOL = 1e-9
 
 def orientations(rng, k):
@@ -67,7 +67,8 @@ def gen_align_case(rng, o, interface, ratio=None):
             p = [float(sum(F[i][j] * loc[j] for j in range(3))) + shift[i] for i in range(3)]
             chain = 'A' if k < n // 2 else 'B'
             atoms.append([k + 1, rng.choice(NAMES), rng.choice(RESN), chain, k // 3 + 1] + [round(x, 3) for x in p] + [1.0, 0.0])
-        sel = rng.choice([{}, {}, {'chainID': ['A']}, {'no_name': ['H']}, {'name': ['CA', 'C', 'N', 'O', 'CB']}])
+        sel = rng.choice([{}, {}, {'chainID': ['A']}, {'no_name': ['H']}, {'name': ['CA', 'C', 'N', 'O', 'CB']},
+                          {'name': 'CA'}, {'chainID': 'B'}, {'name': rng.choice(NAMES), 'chainID': 'A'}])     # scalar values = one-element lists
         return {'kind': 'align', 'atoms': atoms, 'axis': rng.choice('xyz'), 'sel': sel, 'export': rng.random() < 0.25,
                 'orient': [fs(x) for x in o]}
     m = rng.choice([3, 4, 5])
@@ -107,6 +108,9 @@ def run_impl(pdb2sql, case):
         rec_ang.append(([float(x) for x in v], float(out[0]), float(out[1])))
         return out
     before_files = set(os.listdir('.'))
+    export_arg = case['export']
+    if not case['export'] and case.get('export_carrier'):     # "no export" said with another false value than the object False
+        export_arg = {'int0': 0, 'npfalse': np.False_, 'npbool0': np.bool_(0), 'none': None, 'empty': ''}[case['export_carrier']]
     A.get_rotation_angle = wrapped
     try:
         with record_linalg(np) as rec:
@@ -114,13 +118,13 @@ def run_impl(pdb2sql, case):
                 db = pdb2sql.pdb2sql(lines)
                 before = db.get('*')
                 selpos = db.get('rowID', **case['sel'])
-                r = impl_call(A.align, db, case['axis'], case['export'], **case['sel'])
+                r = impl_call(A.align, db, case['axis'], export_arg, **case['sel'])
             else:
                 db = pdb2sql.interface(lines)
                 before = db.get('*')
                 ca = db.get_contact_atoms(cutoff=case['cutoff'])
                 selpos = [i for v in ca.values() for i in v]
-                r = impl_call(A.align_interface, db, case['plane'], case['export'], cutoff=case['cutoff'])
+                r = impl_call(A.align_interface, db, case['plane'], export_arg, cutoff=case['cutoff'])
     finally:
         A.get_rotation_angle = orig
     after = db.get('*')
@@ -338,6 +342,9 @@ def explore(ctx, tier, rng, search=False):
             c = gen_fn_case(rng, o); c['axis'] = ax; cases.append(c)
         for pl in ('xy', 'xz', 'yz'):
             c = gen_align_case(rng, o, True); c['plane'] = pl; cases.append(c)
+    for i, c in enumerate(cases):
+        if c['kind'] != 'fn' and not c['export'] and not c.get('export_carrier') and i % 3 == 1:
+            c['export_carrier'] = ['int0', 'npfalse', 'npbool0', 'none', 'empty'][(i // 3) % 5]
     impl, reqs, spans = [], [], []
     for c in cases:
         if c['kind'] == 'fn':
